@@ -30,15 +30,19 @@ def main():
         except Exception as e:       # an engine bug is never a pass and never an alarm
             traceback.print_exc()
             rep.add("engine", "inconclusive", f"internal error: {type(e).__name__}: {e}"[:1500], nontrivial=False)
-        return rep
-    rep = attempt()
+        return rep, ses
+    rep, ses = attempt()
     if rep.inconclusive and not rep.violations and os.environ.get("VERIF_NO_RETRY") != "1":
         # Nothing was confirmed, something was not decided. A frequent cause: a small predicate was extracted into a helper function whose
         # result the kernels treat as arbitrary. Second attempt: such helpers (Boolean / field-less enum result, unknown to every kernel by
         # name) are followed into their MIR. Its verdict is taken only if it is a clean pass; otherwise the first attempt stands.
         from . import mirsym
-        mirsym.AUTO_INLINE = True
-        rep2 = attempt()
+        import re
+        # .. and only while a function named in an undecided obligation is the one under analysis (the other kernels keep their view)
+        names = {n_ for fs_ in ses._mir.values() for n_ in fs_}
+        named = {seg for i in rep.inconclusive for seg in re.split(r"[/ :(),]", str(i)) if seg in names}
+        mirsym.AUTO_INLINE, mirsym.AUTO_INLINE_ONLY = True, named
+        rep2, _ = attempt()
         if not rep2.inconclusive and not rep2.violations and mirsym.AUTO_INLINED:
             rep2.assumptions.append("second attempt: helper functions followed into their MIR instead of being treated as arbitrary: " + ", ".join(sorted(mirsym.AUTO_INLINED)))
             rep2.extra["first_attempt_inconclusive"] = [str(i)[:200] for i in rep.inconclusive[:10]]
